@@ -29,6 +29,7 @@ FAIL = []
 
 MA = """module ma
   integer :: {i@ma.i}, {x$y@ma.xy}, {total@ma.total}
+  integer :: {b@ma.b}, {z@ma.z}, {o@ma.o}
   real :: {other@ma.other}
   type :: {pt@ma.pt}
     integer :: {total@pt.total}
@@ -51,6 +52,7 @@ contains
     {i@ma.i} = {i@ma.i} + {total@ma.total}
     call {work@ma.work}({i@ma.i}, {total@ma.total})
     {other@ma.other}=-{other@ma.other}/{other@ma.other}
+    {b@ma.b} = b'1010' + {z@ma.z} + z'FF' - o'17'*{o@ma.o}+b"11"
   end subroutine {use_mod@ma.use_mod}
 end module ma
 """
@@ -88,6 +90,20 @@ contains
   end subroutine {inner@pr.inner}
 end program pr
 """
+# the same module reached twice: unrestricted first, then through another module that uses it with an ONLY list
+MH = """module mh
+  use ma, only: {other@ma.other}
+  integer :: {hv@mh.hv}
+end module mh
+"""
+PR3 = """subroutine pr3()
+  use ma
+  use mh
+  integer :: {k3@pr3.k3}
+  {k3@pr3.k3} = {total@ma.total} + {i@ma.i} + {hv@mh.hv}
+  {other@ma.other} = {total@ma.total}
+end subroutine pr3
+"""
 # renamed USE association (local => remote): see known finding C06-use-rename-clause
 PR2 = """program pr2
   use ma, only: {work@ma.work}, {mi@ma.i} => {i@ma.i}
@@ -117,7 +133,7 @@ def render(template: str):
 
 
 FILES, OCC = {}, []
-for _name, _tpl in (("ma.f90", MA), ("mb.f90", MB), ("mc.f90", MC), ("pr.f90", PR)):
+for _name, _tpl in (("ma.f90", MA), ("mb.f90", MB), ("mc.f90", MC), ("mh.f90", MH), ("pr.f90", PR), ("pr3.f90", PR3)):
     _t, _o = render(_tpl)
     FILES[f"{R}/{_name}"] = _t
     OCC += [(f"{R}/{_name}",) + o for o in _o]
